@@ -211,3 +211,9 @@ package codec
 //@   requires first != nil && enc != nil && *enc != nil && (*enc).b != nil && prop != nil
 //@   ensures sep: result == nil ==> hasPrefix(out(*enc), old(out(*enc)) + (old(*first) ? "" : ","))
 //@   ensures flag: !*first
+
+// a member name the object has no property for is an error, never skipped (C03): the member is only
+// decoded after the lookup succeeded
+//@ func (*decoder).decodeObjectInner$1
+//@   assert at decodeValue#0 known: err == nil && prop != nil
+//@   assert at return#0 rejected: result0 != nil
